@@ -493,12 +493,25 @@ func (t *Terms) edgeFacts(d, b *ssa.BasicBlock) []Fact {
 // FactsAtInstr = FactsAt(block of in).
 func (t *Terms) FactsAtInstr(in ssa.Instruction) []Fact { return t.FactsAt(in.Block()) }
 
-func hasFact(fs []Fact, op, a, b string) bool {
-	if (op == "EQ" || op == "NE") && a > b {
-		a, b = b, a
+// termEq compares a fact's term with a query term. A query that carries instruction identities (#id: results of
+// impure calls, phis, allocations) must match exactly - two calls of the same impure function are different values;
+// an identity-free query (built from pure terms by a rule) is compared modulo identities.
+func termEq(factTerm, query string) bool {
+	if strings.Contains(query, "#") {
+		return factTerm == query
 	}
+	return strip(factTerm) == query
+}
+
+func hasFact(fs []Fact, op, a, b string) bool {
 	for _, f := range fs {
-		if f.Op == op && strip(f.A) == strip(a) && strip(f.B) == strip(b) {
+		if f.Op != op {
+			continue
+		}
+		if termEq(f.A, a) && termEq(f.B, b) {
+			return true
+		}
+		if (op == "EQ" || op == "NE") && termEq(f.A, b) && termEq(f.B, a) {
 			return true
 		}
 	}
@@ -530,7 +543,6 @@ const inf = 1 << 40
 
 func intervalOf(fs []Fact, term string) (lo, hi int) {
 	lo, hi = -inf, inf
-	term = strip(term)
 	ci := func(s string) (int, bool) {
 		if !strings.HasPrefix(s, "const:") {
 			return 0, false
@@ -542,35 +554,35 @@ func intervalOf(fs []Fact, term string) (lo, hi int) {
 		return n, true
 	}
 	for _, f := range fs {
-		a, b := strip(f.A), strip(f.B)
+		isA, isB := termEq(f.A, term), termEq(f.B, term)
 		switch f.Op {
 		case "EQ":
-			if a == term {
-				if c, ok := ci(b); ok {
+			if isA {
+				if c, ok := ci(f.B); ok {
 					lo, hi = max(lo, c), min(hi, c)
 				}
-			} else if b == term {
-				if c, ok := ci(a); ok {
+			} else if isB {
+				if c, ok := ci(f.A); ok {
 					lo, hi = max(lo, c), min(hi, c)
 				}
 			}
 		case "LT":
-			if a == term {
-				if c, ok := ci(b); ok {
+			if isA {
+				if c, ok := ci(f.B); ok {
 					hi = min(hi, c-1)
 				}
-			} else if b == term {
-				if c, ok := ci(a); ok {
+			} else if isB {
+				if c, ok := ci(f.A); ok {
 					lo = max(lo, c+1)
 				}
 			}
 		case "LE":
-			if a == term {
-				if c, ok := ci(b); ok {
+			if isA {
+				if c, ok := ci(f.B); ok {
 					hi = min(hi, c)
 				}
-			} else if b == term {
-				if c, ok := ci(a); ok {
+			} else if isB {
+				if c, ok := ci(f.A); ok {
 					lo = max(lo, c)
 				}
 			}
